@@ -183,6 +183,8 @@ func c17(c *Ctx) (*report.Result, error) {
 	res.Assumptions = []string{"encoding.GetCodecV2(proto.Name) is the standard protobuf codec", "strings.ToValidUTF8 replaces exactly the invalid byte runs"}
 	res.RuleDoc["O17.7"] = "translation, access control and repair keep no memory between messages: no shipped function of the interceptor, proto/compat, auth and collect packages stores into package-level state, receiver fields or sync.Maps after construction - a cache keyed by message type or content makes the treatment of one message depend on the ones before it"
 	checkStateless(c, res, "O17.7", []string{"interceptor", "proto/compat", "auth", "collect"}, map[string]string{})
+	res.RuleDoc["O17.10"] = "nothing but the error class gates the repair: from the true side of IsInvalidUTF8Error every path of the codec's Unmarshal reaches convertAndRepairInvalidUTF8"
+	checkRepairGate(c, res, "O17.10")
 	res.RuleDoc["O17.9"] = "an unrepairable message comes back as an error, not as a panic: every WithLabelValues call with an explicit value list in the codec, the interceptor and the compat package passes exactly as many values as the metric vector was declared with (label counts are computed from package metrics' initialiser) - prometheus panics on a mismatch, and the variadic signature lets a stale call site compile"
 	checkMetricLabelArity(c, res, "O17.9", []string{"proto/compat/", "interceptor/", "proxy/", "transport/"}, 15)
 	res.RuleDoc["O17.8"] = "no swallowed error in the files the mechanism lives in: no function returns a nil error on a path on which an error obtained from a call is known to be non-nil (io.EOF from a stream Recv, the normal end of a receive loop, is the one accepted idiom)"
